@@ -50,6 +50,24 @@ PROPS = {
         "not_decided": ["every other operation-validation rule (field merging, value literals, fragments, directives, subscriptions, arguments): differential against graphql-js, no oracle inside a contract",
                         "that validate_variable_usage is called for every variable usage (value.rs / argument.rs walk the document through iterators)"],
     },
+    "C06": {
+        "level": "proof",
+        "verus": ["unescape", "lines"],
+        "technique": "Verus contracts on the extracted unescape_string and GraphQLLines::next (unbounded), with a lemma tying the precondition to the C03 string grammar",
+        "explanation": "KERNEL ONLY. Unit unescape: Verus proves on the extracted unescape_string, for every lexically valid quoted-string body of any length, that the result equals the "
+                       "spec's static semantics of StringValue (every StringCharacter contributes itself, the character of its EscapedCharacter per the spec's table, or the code point of its four hex digits) and that "
+                       "no unwrap() can panic (to_digit on the four hex digits, char::from_u32 on a non-surrogate value, no overflow of `(acc << 4) + digit`). The precondition is not an ad-hoc one: the lemma "
+                       "lemma_lexer_accepts_only_decodable_strings proves that every text satisfying is_quoted_string -- the very predicate (shared text of unit lexer) that C03 establishes for each StringValue token "
+                       "the lexer returns without error, now including the exclusion of surrogate escapes -- is a quote, a body satisfying this precondition, a quote. "
+                       "Unit lines: GraphQLLines::next (step 1 of BlockStringValue, `split_lines`) yields the text before the first LF / CR, continues after the terminator with CR LF skipped as ONE terminator, "
+                       "yields one line for a text without terminators (also the empty text) and then finishes; every byte-offset slice is on a char boundary. Bodies are re-extracted from /repo on every run.",
+        "assumptions": ["Chars::next yields the characters in order; String::push appends; char::to_digit(16) is the hex value; char::from_u32 is Some exactly for non-surrogate values <= 0x10FFFF and converts back (std documentation, shims)",
+                        "listed rewrites in unit unescape: the local closure `unicode` is beta-reduced at its single call; `iter.by_ref().take(4).fold(0, f)` is replaced by its definition (at most four `next()` calls folded with f, f's body kept verbatim)",
+                        "memchr2 finds the first of two ASCII bytes and an ASCII byte is a whole character in UTF-8; byte-range slicing / str::get on char boundaries (shims); &str values with equal characters are equal (axiom)"],
+        "not_decided": ["block strings beyond line splitting: common indentation, removal of blank leading / trailing lines, the escaped triple quote (unescape_block_string, replace_into: iterator adapter chains and memmem -- outside Verus's subset; Kani cannot execute memchr's runtime CPU detection)",
+                        "From<&cst::StringValue> for String (rowan token access; the slices &text[1..len-1] / &text[3..len-3] -- their safety follows from lemma_lexer_accepts_only_decodable_strings's s.len() >= 2 only for quoted strings), "
+                        "the copies into ast::Value / descriptions in apollo-compiler (from_cst.rs)"],
+    },
     "C18": {
         "level": "proof",
         "verus": ["schema_lookup"],
@@ -178,7 +196,7 @@ PROPS = {
                        "the from_str_radix unwrap of the \\uXXXX check never panic), and the loop terminates. Every successfully returned Name / Int / Float / Comment / whitespace / punctuator / "
                        "spread token has the right kind for its text under the October 2021 lexical grammar and is maximal (Name not followed by NameContinue; numbers not followed by "
                        "Digit, `.` or NameStart; comment up to the line terminator). Every successfully returned StringValue token is either a quoted string of the grammar "
-                       "`\"` StringCharacter* `\"` (StringCharacter = any char but `\"`, `\\`, LF, CR | `\\u` + exactly 4 hex digits | `\\` + EscapedCharacter; written as a left-linear grammar "
+                       "`\"` StringCharacter* `\"` (StringCharacter = any char but `\"`, `\\`, LF, CR | `\\u` + exactly 4 hex digits whose value is not a surrogate (D800..DFFF: the documented exception -- such escapes are rejected) | `\\` + EscapedCharacter; written as a left-linear grammar "
                        "q_open / q_body / q_backslash / q_unicode over the consumed prefix) or starts and ends with `\"\"\"`; Cursor::done returns Ok iff no error was recorded for the token. "
                        "Unit lexer_numbers (a second, lighter pass over the same extracted advance / eof) proves the converse for numbers -- `0e5`, `1.5e+3`, `-0`, `12,` can never be rejected -- and that an error "
                        "recorded for one token cannot leak into the next. Kani proves for every char value that the lookup tables (Punctuator kinds, NameStart) and the character classes equal the October 2021 tables; these are the contracts "
@@ -186,7 +204,7 @@ PROPS = {
         "assumptions": ["Cursor's primitives bump / eatc / current_str / prev_str / drain / add_err / new (lexer/cursor.rs) are no longer assumed: unit `cursor` proves their extracted bodies against exactly the contracts the state machine's proof uses (shared clause lists), with a representation invariant tying index / offset / pending / the CharIndices iterator to the ghost model. Assumed instead: std's documented behaviour of CharIndices::next, str::len, byte-range slicing / str::get on char boundaries (shims)",
                         "the representation invariant holds whenever a primitive is called: established by Cursor::new, preserved by every primitive (proved), and nothing else writes the fields (frame check cursor_fields_written_only_by_primitives)",
                         "`&self.source[a..b]` is rewritten to str_slice(self.source, a, b) whose precondition is 'a <= b, both char boundaries' (std semantics of str slicing, assumed)",
-                        "u32::from_str_radix(s, 16) is Ok for 1..=8 hex digits (std, assumed)"],
+                        "u32::from_str_radix(s, 16) is Ok(the value of the digits) for 1..=8 hex digits; char::from_u32 is Some exactly for non-surrogate values <= 0x10FFFF (std documentation, assumed)"],
         "not_decided": ["block strings: only the `\"\"\"` delimiters are proved, not the BlockStringCharacter grammar (where the closing delimiter may and may not appear)",
                         "the converse direction (an error is reported ONLY if the input is not a sequence of valid tokens) is proved for NUMBERS only (unit lexer_numbers: an error on text starting with a digit or `-` means the text is no prefix of any number and not a complete number that may be followed by the offending char); for strings, names, punctuators and the start state it is not decided",
                         "byte offsets reported in Token::index / Error::index", "the documented exception for braced / surrogate-pair escapes"],
